@@ -14,6 +14,7 @@ pub use verif_rt as rt;
 
 pub mod reply;
 pub mod remote;
+pub mod mt;
 pub use reply::{reply_main_with, ReplyVt};
 
 // ------------------------------------------------------------------------------------------------
@@ -124,9 +125,11 @@ pub mod rec {
         rt::emit(json!({"ev":"Handler","prog":prog,"part":part,"name":name,"kind":kind,"args":args,"ctx":ctx}));
     }
 
-    /// The handler leaves its mark in the storage it was given.
+    /// The handler leaves its mark in the storage it was given (and counts the handlers that ran on it).
     pub fn touch(s: &mut dyn Storage, name: &str) {
         s.set(b"verif_mark", name.as_bytes());
+        let n: u64 = s.get(b"verif_count").and_then(|b| String::from_utf8(b).ok()).and_then(|t| t.parse().ok()).unwrap_or(0);
+        s.set(b"verif_count", (n + 1).to_string().as_bytes());
     }
 
     pub fn resp<E: From<HandlerErr>>(name: &str, code: u32, ok: bool) -> Result<Response, E> {
@@ -267,6 +270,8 @@ pub struct ProgVt {
     /// remote helpers (executor / querier / instantiate builder / admin): emits RemoteMsg events and
     /// delivers what the helpers built; the argument is the first free sequence number
     pub remote_events: Option<fn(usize)>,
+    /// multitest twin chains (C12): runs the histories of this program and emits MtOp events
+    pub mt_histories: Option<fn(&Value)>,
 }
 
 const HEIGHTS: [u64; 3] = [12345, 7, 999_999];
@@ -328,6 +333,12 @@ pub fn run_program(vt: &ProgVt, prog: &Value) {
     let stims = prog["stim"].as_array().cloned().unwrap_or_default();
     for (seq, s) in stims.iter().enumerate() {
         flight(vt, seq, s, &candidates, &["ep", "mt"]);
+    }
+    if let Some(f) = vt.mt_histories {
+        let h = prog.get("histories").cloned().unwrap_or(json!([]));
+        if let Err(m) = rt::catch(move || f(&h)) {
+            rt::emit(json!({"ev":"Panic","prog":id,"where":"multitest","msg":m}));
+        }
     }
     if let Some(f) = vt.remote_events {
         if let Err(m) = rt::catch(move || f(stims.len())) {
